@@ -198,15 +198,15 @@ package store
 //@ func BufferedPaginatedStore.MergeWith
 //@   serves C04 C02
 //@   uses OccStepV OccZeroLen OccCopyV
-//@   requires PInv(s) && other != nil && disjoint(s, other)
+//@   requires PInv(s) && other != nil && disjoint(s, other) && disjoint(s, as(other, *BufferedPaginatedStore))
 //@   requires is(other, *BufferedPaginatedStore) ? PInv(as(other, *BufferedPaginatedStore)) : SInv(other)
 //@   ensures PInv(s) && footprintStable(s)
 //@   ensures same-kind: is(other, *BufferedPaginatedStore) ==> (forall k int :: PView(s, k) == old(PView(s, k)) + old(PView(as(other, *BufferedPaginatedStore), k)))
 //@   ensures same-kind-arg: is(other, *BufferedPaginatedStore) ==> PInv(as(other, *BufferedPaginatedStore)) && (forall k int :: PPage(as(other, *BufferedPaginatedStore), k) == old(PPage(as(other, *BufferedPaginatedStore), k)) && POcc(as(other, *BufferedPaginatedStore), k) == old(POcc(as(other, *BufferedPaginatedStore), k)))
 //@   ensures generic: !is(other, *BufferedPaginatedStore) ==> (forall k int :: PView(s, k) == old(PView(s, k)) + old(SView(other, k)))
 //@   ensures generic-arg: !is(other, *BufferedPaginatedStore) ==> SInv(other) && STot(other) == old(STot(other)) && (forall k int :: SView(other, k) == old(SView(other, k))) && footprintStable(other)
-//@   modifies footprint(s), footprint(other)
-//@   loop 1 invariant 0 <= $i1 && $i1 <= len(o.pages) && ok && PInv(s) && PInv(o) && disjoint(s, other) && footprintStable(s) && len(o.pages) == old(len(as(other, *BufferedPaginatedStore).pages)) && arr(o.pages) == old(arr(as(other, *BufferedPaginatedStore).pages)) && o.minPageIndex == old(as(other, *BufferedPaginatedStore).minPageIndex) && len(o.buffer) == old(len(as(other, *BufferedPaginatedStore).buffer)) && arr(o.buffer) == old(arr(as(other, *BufferedPaginatedStore).buffer)) && o == as(other, *BufferedPaginatedStore)
+//@   modifies footprint(s), footprint(other), footprint(as(other, *BufferedPaginatedStore))
+//@   loop 1 invariant 0 <= $i1 && $i1 <= len(o.pages) && ok && PInv(s) && PInv(o) && disjoint(s, o) && footprintStable(s) && len(o.pages) == old(len(as(other, *BufferedPaginatedStore).pages)) && arr(o.pages) == old(arr(as(other, *BufferedPaginatedStore).pages)) && o.minPageIndex == old(as(other, *BufferedPaginatedStore).minPageIndex) && len(o.buffer) == old(len(as(other, *BufferedPaginatedStore).buffer)) && arr(o.buffer) == old(arr(as(other, *BufferedPaginatedStore).buffer)) && o == as(other, *BufferedPaginatedStore)
 //@   loop 1 invariant forall i int :: 0 <= i && i < len(o.pages) ==> len(o.pages[i]) == old(len(as(other, *BufferedPaginatedStore).pages[i])) && arr(o.pages[i]) == old(arr(as(other, *BufferedPaginatedStore).pages[i]))
 //@   loop 1 invariant forall i int, j int :: 0 <= i && i < len(o.pages) && 0 <= j && j < len(o.pages[i]) ==> o.pages[i][j] == old(as(other, *BufferedPaginatedStore).pages[i][j])
 //@   loop 1 invariant forall j int :: 0 <= j && j < len(o.buffer) ==> o.buffer[j] == old(as(other, *BufferedPaginatedStore).buffer[j])
@@ -214,7 +214,7 @@ package store
 //@   loop 1 invariant forall k int :: POcc(s, k) == old(POcc(s, k))
 //@   loop 1 invariant forall k int :: PPage(s, k) == old(PPage(s, k)) + (((k >> 5) - o.minPageIndex < $i1) ? PPage(o, k) : 0.0)
 //@   loop 2 invariant 0 <= $i2 && $i2 <= 32 && len(oPage) == 32 && ok && oPageIndex == o.minPageIndex + oPageOffset && 0 <= oPageOffset && oPageOffset < len(o.pages) && arr(oPage) == arr(o.pages[oPageOffset]) && off(oPage) == 0
-//@   loop 2 invariant PGeom(s) && PPagesOK(s) && PUnused(s) && PRange(s) && PAlloc(s) && PInv(o) && disjoint(s, other) && footprintStable(s) && len(o.pages) == old(len(as(other, *BufferedPaginatedStore).pages)) && arr(o.pages) == old(arr(as(other, *BufferedPaginatedStore).pages)) && o.minPageIndex == old(as(other, *BufferedPaginatedStore).minPageIndex) && len(o.buffer) == old(len(as(other, *BufferedPaginatedStore).buffer)) && arr(o.buffer) == old(arr(as(other, *BufferedPaginatedStore).buffer)) && o == as(other, *BufferedPaginatedStore)
+//@   loop 2 invariant PGeom(s) && PPagesOK(s) && PUnused(s) && PRange(s) && PAlloc(s) && PInv(o) && disjoint(s, o) && footprintStable(s) && len(o.pages) == old(len(as(other, *BufferedPaginatedStore).pages)) && arr(o.pages) == old(arr(as(other, *BufferedPaginatedStore).pages)) && o.minPageIndex == old(as(other, *BufferedPaginatedStore).minPageIndex) && len(o.buffer) == old(len(as(other, *BufferedPaginatedStore).buffer)) && arr(o.buffer) == old(arr(as(other, *BufferedPaginatedStore).buffer)) && o == as(other, *BufferedPaginatedStore)
 //@   loop 2 invariant (forall i int, j int :: 0 <= i && i < len(s.pages) && 0 <= j && j < len(s.pages[i]) ==> s.pages[i][j] >= 0.0) && (forall i int :: 0 <= i && i < len(s.buffer) ==> in32(s.buffer[i]))
 //@   loop 2 invariant PHas(s, oPageIndex) && arr(page) == arr(s.pages[oPageIndex - s.minPageIndex]) && len(page) == 32 && off(page) == 0
 //@   loop 2 invariant forall i int :: 0 <= i && i < len(o.pages) ==> len(o.pages[i]) == old(len(as(other, *BufferedPaginatedStore).pages[i])) && arr(o.pages[i]) == old(arr(as(other, *BufferedPaginatedStore).pages[i]))
@@ -223,7 +223,7 @@ package store
 //@   loop 2 invariant forall k int :: PPage(o, k) == old(PPage(as(other, *BufferedPaginatedStore), k)) && POcc(o, k) == old(POcc(as(other, *BufferedPaginatedStore), k))
 //@   loop 2 invariant forall k int :: POcc(s, k) == old(POcc(s, k))
 //@   loop 2 invariant forall k int :: PPage(s, k) == old(PPage(s, k)) + ((((k >> 5) - o.minPageIndex < oPageOffset) || ((k >> 5) == oPageIndex && (k & 31) < $i2)) ? PPage(o, k) : 0.0)
-//@   loop 3 invariant 0 <= $i3 && $i3 <= len(o.buffer) && ok && PInv(s) && PInv(o) && disjoint(s, other) && footprintStable(s) && len(o.pages) == old(len(as(other, *BufferedPaginatedStore).pages)) && arr(o.pages) == old(arr(as(other, *BufferedPaginatedStore).pages)) && o.minPageIndex == old(as(other, *BufferedPaginatedStore).minPageIndex) && len(o.buffer) == old(len(as(other, *BufferedPaginatedStore).buffer)) && arr(o.buffer) == old(arr(as(other, *BufferedPaginatedStore).buffer)) && o == as(other, *BufferedPaginatedStore)
+//@   loop 3 invariant 0 <= $i3 && $i3 <= len(o.buffer) && ok && PInv(s) && PInv(o) && disjoint(s, o) && footprintStable(s) && len(o.pages) == old(len(as(other, *BufferedPaginatedStore).pages)) && arr(o.pages) == old(arr(as(other, *BufferedPaginatedStore).pages)) && o.minPageIndex == old(as(other, *BufferedPaginatedStore).minPageIndex) && len(o.buffer) == old(len(as(other, *BufferedPaginatedStore).buffer)) && arr(o.buffer) == old(arr(as(other, *BufferedPaginatedStore).buffer)) && o == as(other, *BufferedPaginatedStore)
 //@   loop 3 invariant forall i int :: 0 <= i && i < len(o.pages) ==> len(o.pages[i]) == old(len(as(other, *BufferedPaginatedStore).pages[i])) && arr(o.pages[i]) == old(arr(as(other, *BufferedPaginatedStore).pages[i]))
 //@   loop 3 invariant forall i int, j int :: 0 <= i && i < len(o.pages) && 0 <= j && j < len(o.pages[i]) ==> o.pages[i][j] == old(as(other, *BufferedPaginatedStore).pages[i][j])
 //@   loop 3 invariant forall j int :: 0 <= j && j < len(o.buffer) ==> o.buffer[j] == old(as(other, *BufferedPaginatedStore).buffer[j])
@@ -232,3 +232,38 @@ package store
 //@   foreach 1 invariant !stopped && PInv(s) && SInv(other) && disjoint(s, other) && footprintStable(s) && footprintStable(other)
 //@   foreach 1 invariant forall k int :: PView(s, k) == old(PView(s, k)) + (visited[k] ? SView(other, k) : 0.0)
 //@   foreach 1 invariant STot(other) == old(STot(other)) && (forall k int :: SView(other, k) == old(SView(other, k)))
+
+// DecodeAndMergeWith (the two layouts this store decodes itself; the third is delegated to the generic decoder, which
+// is under contract for the stores of the interface invariant only): success is reported only if every primitive read
+// succeeded and exactly the declared number of bins was read; the input is consumed from the front; the invariant is
+// kept. Input domain A-DOM as for the generic decoder (weights non-negative, accumulated indexes fit 32 bits).
+//@ func BufferedPaginatedStore.DecodeAndMergeWith
+//@   serves C08 C06 C07 C04
+//@   requires PInv(s) && b != nil && (encodingMode == enc.BinEncodingIndexDeltas || encodingMode == enc.BinEncodingContiguousCounts)
+//@   ghost eof bool := false
+//@   ghost declared int := 0
+//@   ghost nread int := 0
+//@   ensures PInv(s) && Suffix(b) && footprintStable(s)
+//@   ensures complete: result == nil ==> !eof && nread == declared
+//@   ensures reported: eof ==> result != nil
+//@   modifies *b, footprint(s)
+//@   after encoding.DecodeUvarint64#1 ghost eof := eof || $result1 != nil
+//@   after encoding.DecodeUvarint64#1 ghost declared := $result
+//@   after encoding.DecodeVarint64#1 ghost eof := eof || $result1 != nil
+//@   after encoding.DecodeVarint64#1 ghost nread := nread + ($result1 == nil ? 1 : 0)
+//@   after encoding.DecodeVarint64#1 assume $result1 == nil ==> in32(index + $result)
+//@   after encoding.DecodeUvarint64#2 ghost eof := eof || $result1 != nil
+//@   after encoding.DecodeUvarint64#2 ghost declared := $result
+//@   after encoding.DecodeVarint64#2 ghost eof := eof || $result1 != nil
+//@   after encoding.DecodeVarint64#2 assume $result1 == nil ==> in32($result)
+//@   after encoding.DecodeVarint64#3 ghost eof := eof || $result1 != nil
+//@   after encoding.DecodeVarfloat64#1 ghost eof := eof || $result1 != nil
+//@   after encoding.DecodeVarfloat64#1 ghost nread := nread + ($result1 == nil ? 1 : 0)
+//@   after encoding.DecodeVarfloat64#1 assume $result1 == nil ==> $result >= 0.0 && in32(indexOffset + indexDelta)
+//@   loop 1 invariant !eof && b != nil && Suffix(b) && PInv(s) && footprintStable(s) && in32(index) && remaining >= 0 && nread + remaining == declared
+//@   loop 2 invariant !eof && b != nil && Suffix(b) && PInv(s) && footprintStable(s) && in32(index) && 0 <= i && i <= batchSize && batchSize <= remaining && nread + remaining - i == declared
+//@   loop 3 invariant !eof && b != nil && Suffix(b) && PInv(s) && footprintStable(s) && in32(indexOffset) && i <= numBins && nread == i && declared == numBins && pageLen == 32
+//@   loop 4 invariant !eof && b != nil && Suffix(b) && footprintStable(s) && in32(indexOffset) && i <= numBins && nread == i && declared == numBins && pageLen == 32
+//@   loop 4 invariant PGeom(s) && PPagesOK(s) && PUnused(s) && PRange(s) && PAlloc(s) && PNonneg(s)
+//@   loop 4 invariant exists p int :: PHas(s, p) && arr(page) == arr(s.pages[p - s.minPageIndex]) && len(page) == 32 && off(page) == 0
+//@   loop 4 decreases numBins - i
